@@ -809,9 +809,32 @@ def rule_raw_broadcast(ctx):
                                     return True
             return False
 
+        # locals that hold the whole coefficient array / the raw operand unchanged (`x_data, c = self.data, rhs` on a "fast path"):
+        # registered where they are bound, unless an accepted guard protects that binding
+        raw_self, raw_rhs = set(), set()
+
+        def register(st, stack):
+            if not (isinstance(st, ast.Assign) and len(st.targets) == 1):
+                return
+            t, v = st.targets[0], st.value
+            pairs = []
+            if isinstance(t, ast.Name):
+                pairs = [(t, v)]
+            elif isinstance(t, ast.Tuple) and isinstance(v, ast.Tuple) and len(t.elts) == len(v.elts):
+                pairs = list(zip(t.elts, v.elts))
+            for tt, vv in pairs:
+                if not isinstance(tt, ast.Name) or facts_ok(stack):
+                    continue
+                if norm(vv) in ('%s.data' % me, '%s.data[...]' % me) or (isinstance(vv, ast.Name) and vv.id in raw_self):
+                    raw_self.add(tt.id)
+                if norm(vv) == operand or (isinstance(vv, ast.Name) and vv.id in raw_rhs):
+                    if tt.id != operand:
+                        raw_rhs.add(tt.id)
+
         def visit(body, stack):
             stack = list(stack)
             for st in body:
+                register(st, stack)
                 if isinstance(st, ast.If):
                     visit(st.body, stack + [(st.test, True)])
                     visit(st.orelse, stack + [(st.test, False)])
@@ -843,8 +866,8 @@ def rule_raw_broadcast(ctx):
             if pair is None:
                 return
             txt = [norm(x) for x in pair]
-            whole = ('%s.data' % me, '%s.data[...]' % me)
-            if not (any(t in whole for t in txt) and operand in txt):
+            whole = ('%s.data' % me, '%s.data[...]' % me) + tuple(raw_self)
+            if not (any(t in whole for t in txt) and (operand in txt or any(t in raw_rhs for t in txt))):
                 return
             seen.add(id(e))
             n += 1
@@ -1260,13 +1283,22 @@ def rule_slice_ops(ctx):
                                   fi.file, rows.lineno))
                 elif len(vp_) >= 2 and vp_[0] in nr and vp_[1] in nc:
                     r.ok(construct=k + ':broadcast-order', sample='%s: outer product as broadcast with rows from `%s`' % (fi.qualname, vp_[0]))
+        # only functions that are known to be mistaken for the expected one are findings (matmul / inner / vdot for dot, kron / multiply for outer,
+        # lstsq / pinv for solve / inv); a general contraction (einsum, tensordot) is not decided by this rule - its axes are what E2 / E7 look at
+        CONFUSABLE = {'matmul', 'inner', 'vdot', 'kron', 'multiply', 'lstsq', 'pinv', 'cross', 'outer', 'dot', 'inv', 'solve', 'tensorsolve', 'tensorinv'}
+        for n_ in [k_ for k_ in used if k_ not in allowed and k_ not in CONFUSABLE]:
+            r.note('%s applies numpy.%s to coefficient slices: not one of %s, not decided by C07.op' % (fi.qualname, n_, sorted(allowed)))
+            used.pop(n_)
         bad = {n: c for n, c in used.items() if n not in allowed}
         if bad:
             for n, c in bad.items():
                 r.bad(Finding('C07.op', _f(fi), n, '%s applies numpy function `%s` to coefficient slices (`%s`), expected %s'
                               % (fi.qualname, n, norm(c)[:70], sorted(allowed)), fi.file, c.lineno))
         elif not used:
-            r.unknown(fi.site(), 'no NumPy slice operation found in kernel')
+            if any('not decided by C07.op' in x and fi.qualname in x for x in getattr(r, 'notes', [])):
+                r.ok(construct=k + ':other-contraction')
+            else:
+                r.unknown(fi.site(), 'no NumPy slice operation found in kernel')
         else:
             r.ok(construct=k, sample='%s uses %s on slices' % (k, sorted(used)))
         # operand order of the (non-commutative) product in the pure product kernels: first factor from the first operand
